@@ -25,6 +25,7 @@ FAULTS = [
     ('skip', '%%% LT-SKIP-BEGIN\n', 0, 'none'),
     ('accent', "\\'1 ", 0, 'none'),
     ('ltinput', '\\LTinput{/nonexistent/f.tex} ', 0, 'none'),
+    ('ltinput-undecodable', '\\LTinput{ymcbad.tex} ', 0, 'none'),
     ('openarg', '\\footnote{', 9, 'none'),
     ('openarg2', '\\LTalter{x}{', 11, 'none'),
     ('openopt', '\\section[', 8, 'none'),
@@ -84,6 +85,8 @@ class C08:
         catcheck.init_worker()
         with open('ymcnest.tex', 'w') as f:
             f.write('\\usepackage{amsmath}\n\\newcommand{\\nq}{x}\n' + 'padding line\n' * 5)
+        with open('ymcbad.tex', 'wb') as f:
+            f.write(b'caf\xe9 \xff\xfe binary')
         with open('ymcnest2.tex', 'w') as f:
             f.write('\\LTinput{ymcnest.tex}\n\\usepackage[german]{babel}\n' + 'more padding\n' * 3)
 
